@@ -1,4 +1,5 @@
 """C01 - threshold soundness: no acceptance without enough valid authorized signers."""
+import copy
 import itertools
 
 from hypothesis import strategies as st
@@ -251,6 +252,35 @@ def check_interrupted_sweep(case):
     return C12.check_fault_sweep(case)
 
 
+def _case_spellings(k):
+    """spellings of a key that differ only in letter case / one character class (the near-misses of 'lower-case hex')"""
+    out = [k.upper(), k[:10].upper() + k[10:], k[:-8] + k[-8:].upper()]
+    for i, ch in enumerate(k):
+        if ch in "abcdef":
+            out.append(k[:i] + ch.upper() + k[i + 1:])
+            break
+    return [v for v in dict.fromkeys(out) if v != k]
+
+
+@st.composite
+def _envelopes_spelled(draw):
+    """the envelope corpus; one case in six is the two-spellings attack made explicit: a valid entry of an authorized signer is
+    copied under another spelling of its key (upper / mixed case), the caller's list of authorized keys names that spelling as
+    well, and the threshold is one more than the number of real signers.  Such a list is not a list of keys, and a signature
+    under such a name is nobody's: the envelope must not be accepted."""
+    c = draw(GE.envelopes())
+    valid = [(k, v) for k, v, lab in c["sigs"] if lab in ("valid", "valid_nonce") and k in c["authorized"]]
+    if valid and draw(st.integers(0, 5)) == 0:
+        k, v = valid[draw(st.integers(0, len(valid) - 1))]
+        sp = _case_spellings(k)
+        if sp:
+            v2 = sp[draw(st.integers(0, len(sp) - 1))]
+            c["sigs"] = [x for x in c["sigs"] if x[0] != v2] + [[v2, copy.deepcopy(v), "variant_key"]]
+            c["authorized"] = list(c["authorized"]) + [v2]
+            c["threshold"] = len({kk for kk, _ in valid}) + 1
+    return c
+
+
 UNITS = [
     Unit("interrupted_sweep", check_interrupted_sweep, strategy=lambda: __import__("props.C12", fromlist=["x"])._sweep_cases(),
          quick=36, thorough=900, shards_quick=6,
@@ -260,7 +290,7 @@ UNITS = [
              "that could count as a signer later"),
     Unit("config", check_config, strategy=_config_cases, quick=24, thorough=400, shards_quick=8, shrink=False,
          doc="soundness in fresh interpreters: -O, logging level, warnings filter, stdout encoding / closed stdout, discovered environment variables"),
-    Unit("signable", check_signable, strategy=GE.envelopes, quick=1200, thorough=40000,
+    Unit("signable", check_signable, strategy=lambda: _envelopes_spelled(), quick=1200, thorough=40000,
          essential=["other_payload:leaf", "bitflip:signature", "misfiled", "wrong_shape", "malformed", "upper_sig",
                     "unauthorized", "variant_key", "junk", "valid_nonce"], essential_min=0.02,
          doc="verify_signable: accepted => enough distinct valid authorized signers"),
